@@ -42,3 +42,4 @@ MUTANTS.append(dict(name="declared-schema-skipped-by-sanitised-name", file='core
 MUTANTS.append(dict(name='alias-decision-forgets-properties', file='visit/model/model_visitor.py', expect='R2.12', old='            and not schema.properties\n            and not is_enum\n', new='            and not is_enum\n'))
 MUTANTS.append(dict(name='oneof-filter-drops-typed-members', file='core/parsing/keywords/one_of_parser.py', expect='R2.13', old='            s.type is None\n            and not s.properties\n', new='            not s.properties\n'))
 MUTANTS.append(dict(name='ref-resolved-by-sanitised-name', file='core/parsing/schema_parser.py', expect='R2.10', old='    if ref_name in context.parsed_schemas and not context.parsed_schemas[ref_name]._max_depth_exceeded_marker:\n', new='    if NameSanitizer.sanitize_class_name(ref_name) in context.parsed_schemas and not context.parsed_schemas[ref_name]._max_depth_exceeded_marker:\n'))
+MUTANTS.append(dict(name="sanitised-key-not-tested-against-declared-names", file='core/parsing/schema_parser.py', expect="R2.14", old="            if registration_key != schema_name and registration_key in context.raw_spec_schemas:\n                registration_key = schema_name\n", new=""))
